@@ -2,7 +2,8 @@
 """C19 — stop() interrupts the solver promptly, from any thread, leaving valid results.  DESIGN.md §6 C19.
 
 One proof stage over Props/C19_{Panoc,Zerofpr,Pantr,Fista,Ocp} (+ the generated stop-flag tables of gen_c19,
-+ Props/C07: ALM returns Interrupted at once when the inner solver was interrupted), then
++ Props/C07: ALM returns Interrupted at once when the inner solver was interrupted, and when its own stop
+flag is visible after an inner solve that did not report the request), then
 
   per inner solver   exhaustive stop injection on fixed runs — stop() from inside *every* event (problem call,
                      direction call) and *every* progress callback —, seeded random stop points, bit-exact
@@ -453,7 +454,8 @@ def main(argv):
         trusted_base=[
             'Lean 4.33 kernel + Mathlib (axioms: propext, Classical.choice, Quot.sound)',
             'translator gen_c19 (declaration / accesses of stop_flag in atomic-stop-signal.hpp, uses of '
-            'stop_signal in the solvers), gen_c06 (status chain), gen_c07 (ALM loop: early return on Interrupted)',
+            'stop_signal in the solvers), gen_c06 (status chain), gen_c07 (ALM loop: early return on Interrupted, '
+            'ALMSolver::stop() sets ALM\'s own flag and forwards, the flag is read once after each inner solve)',
             'hand-written loop models Alpaqa/Model/{Panoc,Zerofpr,Pantr,Fista,Ocp}.lean tied by bit-exact trace '
             'replay incl. the number of oracle calls, with stop() injected at every event / callback index of '
             'fixed runs',
